@@ -188,6 +188,18 @@ def run(tier):
         cases += [Case("gensquashfs-xz-many", "gensquashfs", ["-q", "-f", "-c", "xz", "-b", "4096", "-e", "-F", s2.packfile(), s2.dir + "/o_@.sqfs"], s2.dir, True, out=s2.dir + "/o_@.sqfs"),
                   Case("sqfs2tar-gzip", "sqfs2tar", ["-c", "gzip", img], work, False, stdout_is_output=True),
                   Case("rdsquashfs-describe", "rdsquashfs", ["-d", img], work, False, stdout_is_output=True)]
+    # readers on an image WITH extended attributes (the xattr reader's tables and its two meta data readers are loaded, every one an allocation):
+    # what is printed / archived with exit 0 has to be what the fault-free run gives, attributes included
+    xa_img = work + "/refxa.sqfs"
+    open(work + "/refxa_pack.txt", "w").write("file /big 0644 0 0 %s\ndir /d 0755 0 0\nfile /d/f 0644 0 0 %s\n" % (scen[1].dir + "/pack.txt", scen[1].dir + "/pack.txt"))
+    open(work + "/refxa_xattr.txt", "w").write("# file: big\nuser.a=0x3132\nuser.long=\"%s\"\n\n# file: d/f\nuser.a=0x3132\n\n# file: d\nuser.d=\"dir\"\n" % ("v" * 300))
+    rc, o, e = sh([tools + "/gensquashfs", "-q", "-f", "-F", work + "/refxa_pack.txt", "-A", work + "/refxa_xattr.txt", xa_img], timeout=60)
+    if rc:
+        raise RuntimeError("cannot build the xattr image: %s" % e[-200:])
+    cx1 = Case("rdsquashfs-xattr", "rdsquashfs", ["-x", "big", xa_img], work, False, stdout_is_output=True)
+    cx2 = Case("sqfs2tar-xattr", "sqfs2tar", [xa_img], work, False, stdout_is_output=True)
+    cx1.alloc_only = cx2.alloc_only = True
+    cases += [cx1, cx2]
     records = []
     plan = []
     for c in cases:
@@ -206,7 +218,7 @@ def run(tier):
             counts["a"] = max([int(v[0]) for v in vals] + [counts.get("a", 0)])
         c.counts = counts
         cap = 400 if tier == "quick" else 5000
-        for cls in ("" if getattr(c, "alloc_tail", 0) else "wrot"):
+        for cls in ("" if getattr(c, "alloc_tail", 0) or getattr(c, "alloc_only", False) else "wrot"):
             n = counts[cls]
             ks = list(range(1, n + 1))
             if len(ks) > cap:
